@@ -60,6 +60,8 @@ pub enum OpKind {
         take: Option<u32>,
     },
     BuildAst,
+    /// the free function `cooklang::parse` (a default parser built per call); `parser` is ignored
+    ParseFree,
     ScaleConvert {
         factor: f64,
         system: String,
@@ -255,7 +257,8 @@ fn gen_plain_op(r: &mut Rng, nparsers: usize, ninputs: usize, sw: &Swarm) -> Op 
             cb: if sw.callbacks && r.chance(1, 2) { Some(gen_cb(r)) } else { None },
         },
         57..=63 => OpKind::Events { meta: r.chance(1, 4), take: None },
-        64..=67 => OpKind::BuildAst,
+        64..=65 => OpKind::BuildAst,
+        66..=67 => OpKind::ParseFree,
         68..=82 => OpKind::ScaleConvert {
             factor: *r.pick(&[0.5, 1.0, 1.5, 2.0, 3.0, 0.333, 10.0]),
             system: if r.chance(1, 2) { "metric" } else { "imperial" }.into(),
@@ -458,25 +461,49 @@ pub fn gen_scenario(run_seed: u64, pool: &Pool) -> Scenario {
         parsers,
         inputs,
         hash_seed: root.fork(3).next_u64(),
-        fresh_build: root.fork(4).chance(1, 8),
+        fresh_build: root.fork(4).chance(1, 4),
         threads,
     }
 }
 
-/// same length, same first half, one differing character in the second half
+/// A near-copy of `s` of the same byte length: what an imprecisely keyed cache or memo
+/// confuses. Three kinds: one alphanumeric replaced in the second half (same length and
+/// prefix), the ASCII case of one letter flipped anywhere (case-folded keys), one digit
+/// changed (numeric normalisation).
 fn twin(s: &str, r: &mut Rng) -> String {
     let chars: Vec<char> = s.chars().collect();
     if chars.len() < 2 {
         return format!("{s}x");
     }
     let half = chars.len() / 2;
-    // replace one ASCII alphanumeric by another ASCII letter (keeps byte length)
-    let cands: Vec<usize> = (half..chars.len()).filter(|&i| chars[i].is_ascii_alphanumeric()).collect();
-    if cands.is_empty() {
-        return s.to_string();
-    }
-    let i = *r.pick(&cands);
     let mut c = chars.clone();
-    c[i] = if c[i] == 'z' { 'y' } else { 'z' };
+    match r.below(4) {
+        0 | 1 => {
+            let cands: Vec<usize> = (0..chars.len()).filter(|&i| chars[i].is_ascii_alphabetic()).collect();
+            if cands.is_empty() {
+                return s.to_string();
+            }
+            // prefer a letter right after a digit, '%' or '{' (a unit) when there is one
+            let unitish: Vec<usize> = cands.iter().copied().filter(|&i| i > 0 && (chars[i - 1] == '%' || chars[i - 1] == ' ' && i > 1 && chars[i - 2].is_ascii_digit())).collect();
+            let i = if !unitish.is_empty() && r.chance(2, 3) { *r.pick(&unitish) } else { *r.pick(&cands) };
+            c[i] = if c[i].is_ascii_lowercase() { c[i].to_ascii_uppercase() } else { c[i].to_ascii_lowercase() };
+        }
+        2 => {
+            let cands: Vec<usize> = (0..chars.len()).filter(|&i| chars[i].is_ascii_digit()).collect();
+            if cands.is_empty() {
+                return s.to_string();
+            }
+            let i = *r.pick(&cands);
+            c[i] = if c[i] == '9' { '8' } else { ((c[i] as u8) + 1) as char };
+        }
+        _ => {
+            let cands: Vec<usize> = (half..chars.len()).filter(|&i| chars[i].is_ascii_alphanumeric()).collect();
+            if cands.is_empty() {
+                return s.to_string();
+            }
+            let i = *r.pick(&cands);
+            c[i] = if c[i] == 'z' { 'y' } else { 'z' };
+        }
+    }
     c.into_iter().collect()
 }
